@@ -221,13 +221,22 @@ def _scen(case, cov, viol):
     t = E.make_probe(case["seed"], 8, "nonrep_partial", "newcounty", office, "1" if office == "H" else None, weights="twoparty")
     t.update(id=t["id"].replace("AAcN", "AAcT"), county="AAcT", pev=0.0, r_dem=0, r_gop=0, r_turnout=0, b_dem=0, b_gop=6, b_turnout=7)
     units.append(t)
+    # a classification that has completely reported (its interval is as narrow as it gets) and contains a large, lopsided
+    # unit outside the model: prediction and interval of the group must be built from the same set of units
+    for i, u in enumerate(u for u in units if u["role"] == "bg" and u["postal"] == "AA"):
+        if i < 3:
+            u["cls"] = "s"
+    o = E.make_probe(case["seed"], 7, "unit_blocklisted", "pop0", office, "1" if office == "H" else None, weights="twoparty")
+    two = o["b_dem"] + o["b_gop"]
+    o.update(cls="s", r_dem=int(two * 1.5), r_gop=int(two * 0.1), r_turnout=int(two * 1.6) + 5)
+    units.append(o)
     mp = {"B": case["B"]}
     if case["lambda"] is not None:
         mp["lambda_"] = case["lambda"]
     if case.get("evb") is not None:
         mp["percent_expected_vote_error_bound"] = case["evb"]
         cov["runs_with_configured_expected_vote_error_bound"] += 1
-    aggs = ["postal_code", "county_fips", "unit"] if office == "G" else ["postal_code", "district", "county_fips", "unit"]
+    aggs = ["postal_code", "county_fips", "county_classification", "unit"] if office == "G" else ["postal_code", "district", "county_fips", "county_classification", "unit"]
     cfg = E.make_cfg(office=office, pi_method="bootstrap", estimands=["margin"], features=["baseline_normalized_margin"], alphas=list(ALPHAS), aggregates=aggs, model_parameters=mp,
                      fixed_effects={"county_classification": ["all"]} if case["fe"] else {})
     res = E.run_estimates(units, cfg)
@@ -236,12 +245,14 @@ def _scen(case, cov, viol):
         return 1, True
     for tname, tab in res["ok"].items():
         for r in E.tab_rows_num(tab):
-            ident = r.get("geographic_unit_fips") or tuple(r.get(c) for c in ("postal_code", "district", "county_fips") if c in r)
+            ident = r.get("geographic_unit_fips") or tuple(r.get(c) for c in ("postal_code", "district", "county_fips", "county_classification") if c in r)
             if tname != "unit_data":
                 if r.get("county_fips") == "AAcZ":
                     cov["zero_turnout_groups"] += 1
                 if r.get("county_fips") == "AAcT":
                     cov["tiny_one_sided_groups"] += 1
+                if r.get("county_classification") == "s":
+                    cov["complete_classification_groups"] += 1
                 if not (-1.0 <= r["pred_margin"] <= 1.0):
                     viol("group-margin-out-of-range", f"{case}: {tname} {ident} pred_margin={r['pred_margin']}")
                 if not r["pred_turnout"] >= 0:
@@ -357,4 +368,4 @@ def evaluate(case):
     return out
 
 
-REQUIRED_COUNTERS = {"rank_states": 1000000, "draw_matrices": 10000, "scen_group_rows": 100, "extreme_runs": 5, "zero_turnout_groups": 10, "tiny_one_sided_groups": 10, "presidential_runs": 4, "presidential_correction_at_the_clip": 2}
+REQUIRED_COUNTERS = {"rank_states": 1000000, "draw_matrices": 10000, "scen_group_rows": 100, "extreme_runs": 5, "zero_turnout_groups": 10, "tiny_one_sided_groups": 10, "complete_classification_groups": 10, "presidential_runs": 4, "presidential_correction_at_the_clip": 2}
